@@ -81,6 +81,8 @@ impl<'de> Multipart<'de> {
             return Ok(Self(Vec::new()))
         }
 
+        let delimiter = [CRLF, boundary].concat();
+
         let mut parts = Vec::new();
         while let Some(i) = r.consume_oneof(["\r\n", "--"]) {
             match i {
@@ -113,18 +115,10 @@ impl<'de> Multipart<'de> {
                     }
 
                     let content = {
-                        let before_boundary = r.read_until(boundary);
-                        let before_boundary_len = before_boundary.len();
-                        let Some((content, CRLF)) = (before_boundary_len >= CRLF.len()).then(|| unsafe {
-                            use std::slice::from_raw_parts;
-
-                            let ptr = before_boundary.as_ptr();
-                            let mid = before_boundary_len - CRLF.len();
-                            (from_raw_parts(ptr, mid), from_raw_parts(ptr.add(mid), CRLF.len()))
-                        }) else {return Err((|| Error::MissingCRLF())())};
-
-                        r.consume(boundary).ok_or_else(Error::ExpectedBoundary)?;
-
+                        /* a part is closed by CRLF "--" boundary ( RFC 2046 5.1.1 ):
+                           "--" boundary in the middle of a line is content */
+                        let content = r.read_until(&delimiter);
+                        r.consume(&delimiter).ok_or_else(Error::ExpectedBoundary)?;
                         content
                     };
 
